@@ -60,7 +60,7 @@ def expand_cells(sy, e, depth=0):
         return e
     if e[0] == "local" and e[1] in sy.cells and len(sy.f.defs.get(e[1], [])) == 1:
         o = strip(sy.origin(e))
-        if o != e and o[0] == "call" and o[1].split("::")[-1] in ("iter", "into_iter", "iter_mut", "copied", "cloned", "enumerate", "rev", "take", "skip"):
+        if o != e and o[0] == "call" and o[1].split("::")[-1] in ("iter", "into_iter", "iter_mut", "copied", "cloned", "enumerate", "rev", "take", "skip", "zip"):
             return expand_cells(sy, o, depth + 1)
         return e
     out = []
